@@ -216,6 +216,26 @@ def run(ctx):
                 s0 = state_at(c)
                 if s0[FL] != 'C' or s0[FR] != 'C':
                     problems.append('a frame is popped while a child may still be pending')
+        # a frame with nothing pending must be popped before the next round (otherwise the walk never ends)
+        pops = [c for c in b.calls if c.callee_name() in ('pop', 'truncate', 'remove', 'swap_remove') and strip_ref(c.args[0]).kind == 'escaped' and strip_ref(c.args[0]).args[0] == stack_local]
+        loops_ = cfg.loops()
+        headers = [h for h, body_ in loops_.items() if start in body_]
+        for x, (f_, op) in tests.items():
+            for succ in cfg.succ[x]:
+                tr = edge_truth(b.mir['blocks'][x]['term'], succ)
+                if tr is None:
+                    continue
+                ne = tr if op == 'Ne' else not tr
+                cur = dict(out_state.get(x) or st_in.get(x) or init)
+                cur[f_] = 'P' if ne else 'C'
+                if all(cur[ff] == 'C' for ff in fields):
+                    # every way back to the loop header passes a pop
+                    for h in headers:
+                        avoid = {p_.point[0] for p_ in pops}
+                        if succ in avoid:
+                            continue
+                        if succ == h or cfg.paths_avoiding(succ, h, avoid):
+                            problems.append('a frame with nothing left pending is not popped on every path back to the next round: the traversal would examine it forever')
         # the child pushed is built from the link it was read from: new(index, node(index))
         for f, cs in child_push.items():
             for c in cs:
